@@ -89,6 +89,72 @@ def step_interp(prog: Program, fn: FuncInfo, fields: Any) -> StepInterp:
     return it
 
 
+class Unfixed:
+    """A part of the fetcher's state the scenario does not fix (its fallback, a cached fallback sample, its stream ...):
+    None, a falsy or a truthy object -- decided by a fork of its own the first time the code looks at it, so whatever
+    apply() makes of it is explored both ways.  Its attributes and the results of its methods are unfixed again."""
+
+    def __init__(self, label: str) -> None:
+        self.label = label
+        self.state: str | None = None
+        self.parts: dict[str, Unfixed] = {}
+
+    def __repr__(self) -> str:
+        return f"<{self.label}: {self.state or 'any'}>"
+
+
+class FetcherInterp(StepInterp):
+    """StepInterp for MetricFetcher.apply: fields of `self` outside the scenario are `Unfixed`."""
+
+    STATES = ("none", "falsy", "truthy")
+
+    def decide(self, v: Unfixed) -> str:
+        if v.state is None:
+            v.state = self.STATES[self.choose(3, f"{v.label} is None / falsy / truthy")]
+        return v.state
+
+    def truth_of(self, v: Any, node: ast.AST | None) -> bool:
+        if isinstance(v, Unfixed):
+            return self.decide(v) == "truthy"
+        return super().truth_of(v, node)
+
+    def identical(self, a: Any, b: Any) -> bool:
+        for x, y in ((a, b), (b, a)):
+            if isinstance(x, Unfixed) and y is None:
+                return self.decide(x) == "none"
+        return super().identical(a, b)
+
+    def compare_values(self, op: ast.cmpop, a: Any, b: Any, node: ast.AST) -> Any:
+        for x, y in ((a, b), (b, a)):
+            if isinstance(x, Unfixed) and y is None and isinstance(op, (ast.Eq, ast.NotEq)):
+                return (self.decide(x) == "none") == isinstance(op, ast.Eq)
+        return super().compare_values(op, a, b, node)
+
+    def get_attr(self, base: Any, attr: str, node: ast.AST) -> Any:
+        if isinstance(base, Unfixed):
+            if self.decide(base) == "none":
+                from ..engine.absint import _Raise
+                raise _Raise("AttributeError", node)
+            return base.parts.setdefault(attr, Unfixed(f"{base.label}.{attr}"))
+        return super().get_attr(base, attr, node)
+
+    def apply_other(self, fn: Any, pos: list[Any], kw: dict[str, Any], node: ast.AST) -> Any:
+        if isinstance(fn, Unfixed):
+            return fn.parts.setdefault("()", Unfixed(f"{fn.label}()"))
+        return super().apply_other(fn, pos, kw, node)
+
+    def isinstance_(self, v: Any, cls: Any, node: ast.AST) -> bool:
+        if isinstance(v, Unfixed):
+            return self.decide(v) != "none" and self.choose(2, f"isinstance({v.label}, ...)") == 1
+        return super().isinstance_(v, cls, node)
+
+
+def fetcher_interp(prog: Program, fn: FuncInfo) -> FetcherInterp:
+    it = FetcherInterp(lambda attr: [Unfixed(f"self.{attr}")])
+    it.bind_helpers(prog, fn)
+    return it
+
+
 def _self_fields(attr: str) -> list[Any]:
     # configuration fields of steps: optional finite floats (Clipper limits, constants)
     return [F("fin", f"self.{attr}"), None]
@@ -314,7 +380,9 @@ def check_fetcher(run: Run, prog: Program, rule: str = "C13.FETCH", only_total: 
     cases = 0
     for kind in ("none", "nan", "inf", "valid"):
         for naz in (False, True):
-            interp = step_interp(prog, fn, lambda attr: [None])
+            # what the scenario does not fix -- the fetcher's fallback, a cached fallback sample, its stream -- is left
+            # open (Unfixed: None / falsy / truthy, forked on first use): the pushed value must not depend on it
+            interp = fetcher_interp(prog, fn)
             stacks: list[list[Any]] = []
 
             def make_args(kind=kind, naz=naz, stacks=stacks) -> dict[str, Any]:
@@ -358,15 +426,27 @@ def check_fetcher(run: Run, prog: Program, rule: str = "C13.FETCH", only_total: 
                 else:
                     ok = isinstance(res, F) and res.expr == "q.base_value"
                     want = "the sample's base value"
+                state = [(lab, d) for lab, d in zip(out.labels, out.decisions) if " is None / falsy / truthy" in lab or lab.startswith("isinstance(")]
+                where = "" if not state else " when " + ", ".join(
+                    f"{lab.split(' is None / ')[0]} is {FetcherInterp.STATES[d] if ' is None / ' in lab else ('an' if d else 'not an') + ' instance'}"
+                    for lab, d in state)
+                if state and not ok:
+                    inst += where
                 run.check(ok, "C13.FETCH", fn.qual, inst,
-                          f"pushes {getattr(res, 'expr', res)!r}, expected {want}",
-                          node=fn.node, file=fn.file, instance=inst)
+                          f"pushes {getattr(res, 'expr', res)!r}, expected {want}{where}"
+                          + ("" if not state else
+                             ": what a stream's missing value counts as is decided by the value and the stream's nones_are_zeros alone "
+                             "(\"on streams so configured a missing value behaves exactly like 0\") -- not by whether a fallback is "
+                             "configured, running or has delivered (in the round the primary first turns invalid the fallback is only "
+                             "*started*, later it may have no value either: those rounds are missing values of this stream like any "
+                             "other), nor by any other state the fetcher keeps"),
+                          node=fn.node, file=fn.file, instance=inst + (f" path={out.decisions}" if state and ok else ""))
     if cases < 8:
         raise AnalysisError("C13.FETCH: fewer than 8 fetcher cases interpreted")
     if only_total:
         return
     # no next value at all -> must not silently push
-    interp = step_interp(prog, fn, lambda attr: [None])
+    interp = fetcher_interp(prog, fn)
     stacks2: list[list[Any]] = []
 
     def make_none() -> dict[str, Any]:
@@ -515,23 +595,42 @@ def check_output(run: Run, prog: Program) -> bool:
     run.check(ok, "C13.OUT", fn.qual, "NaN/inf result -> Sample(ts, None)", detail,
               node=fn.node, file=fn.file)
 
-    # builders forward nones_are_zeros unchanged to every push_metric
+    # builders forward nones_are_zeros unchanged to every push_metric -- in build() itself or in whatever private helper
+    # of the class / module does the pushing for it (the value is followed back through locals, the helpers' parameters
+    # and their defaults to where it comes from)
+    from ..engine.normalize import positional
+
+    pm = prog.func(f"{ENGINE}:FormulaBuilder.push_metric")
+    pparams = [p for p in pm.params if p != "self"]
+    if "nones_are_zeros" not in pparams:
+        raise AnalysisError(f"{pm.qual}: no nones_are_zeros parameter")
     for cname in ("HigherOrderFormulaBuilder", "HigherOrderFormulaBuilder3Phase"):
         b = prog.func(f"{ENGINE}:{cname}.build")
         run.analysed(b.qual)
-        n_push = 0
-        for call in (x for x in body_walk(b.node) if isinstance(x, ast.Call)):
-            if isinstance(call.func, ast.Attribute) and call.func.attr == "push_metric":
-                n_push += 1
-                kws = {k.arg: u(k.value) for k in call.keywords}
-                run.check(kws.get("nones_are_zeros") == "nones_are_zeros", "C13.OUT", b.qual, call,
-                          "push_metric is not given the builder's nones_are_zeros flag unchanged",
-                          node=call, file=b.file)
         if "nones_are_zeros" not in b.params:
             raise AnalysisError(f"{b.qual}: no nones_are_zeros parameter")
-        run.check(n_push > 0, "C13.OUT", b.qual, "build() pushes the metrics with the flag",
-                  "build() never pushes a metric: the inputs (and their missing-value setting) are lost",
-                  node=b.node, file=b.file)
+        root, psites = push_sites(prog, b)
+        for k, (pfl, nid, call) in enumerate(psites):
+            if pfl.fn.node is not root.fn.node:
+                run.analysed(pfl.fn.qual)
+            arg = positional(call, pparams).get("nones_are_zeros")
+            where = "" if pfl is root else f" (in {pfl.fn.name}(), reached from build())"
+            if arg is None:
+                run.violation("C13.OUT", b.qual, call, f"push_metric{where} is not given a nones_are_zeros setting at all", node=call, file=pfl.fn.file)
+                continue
+            orgs = origin_x(pfl, arg, nid)
+            bad = sorted({_org_text(o, root) for o in orgs if not (o.kind == "param" and o.name == "nones_are_zeros" and o.flow is root)})
+            run.check(bool(orgs) and not bad, "C13.OUT", b.qual, call,
+                      f"push_metric{where} is not given build()'s own nones_are_zeros unchanged: the setting it receives can be {bad}.  "
+                      f"A composition built with {cname}.build(..., nones_are_zeros=True) then treats its inputs as strict (a missing "
+                      "value on one of them makes the result None instead of counting as 0), or the reverse -- the request "
+                      "\"count missing values as zero\" has to reach every input stream of the formula, through every helper on the "
+                      "way: a helper parameter that build() does not pass (so that the helper's default is used), a constant, the "
+                      "negation, or another object's setting are all the same mistake",
+                      node=call, file=pfl.fn.file, instance=f"{b.qual}: push_metric #{k + 1}{where} gets build()'s nones_are_zeros")
+        run.check(bool(psites), "C13.OUT", b.qual, "build() pushes the metrics with the flag",
+                  "build() never pushes a metric (neither itself nor through a private helper): the inputs (and their "
+                  "missing-value setting) are lost", node=b.node, file=b.file)
         # "counts as zero *on request*": missing values propagate unless the caller asks otherwise
         a = b.node.args
         dflt = dict(zip([x.arg for x in a.kwonlyargs], a.kw_defaults))
@@ -542,6 +641,70 @@ def check_output(run: Run, prog: Program) -> bool:
                   node=b.node, file=b.file)
 
     return engine_drops_round(run, prog)
+
+
+def _org_text(o: Any, root: Any) -> str:
+    if o.kind == "expr" and o.node is not None:
+        owner = "" if o.flow is root else f" (evaluated for {o.flow.fn.name}())"
+        if isinstance(o.node, ast.Constant):
+            return f"the constant {u(o.node)}{owner}"
+        return f"`{u(o.node)[:60]}`{owner}"
+    if o.kind == "param":
+        return f"parameter `{o.name}` of {o.flow.fn.name}()"
+    return o.text()
+
+
+CLOSURE_OF: dict[int, tuple[Any, Any, int]] = {}  # id(flow of a closure) -> (that flow, flow of the enclosing function, node of the call)
+
+
+def origin_x(flow: Any, expr: ast.AST, nid: int, fuel: int = 4) -> list[Any]:
+    """Flow.origin(), with the free variables of a closure (see push_sites) read in the enclosing function at the call."""
+    out: list[Any] = []
+    for o in flow.origin(expr, nid):
+        link = CLOSURE_OF.get(id(o.flow))
+        if o.kind == "global" and link is not None and link[0] is o.flow and fuel > 0:
+            _ch, outer, at = link
+            out.extend(origin_x(outer, ast.Name(id=o.name, ctx=ast.Load()), at, fuel - 1))
+        else:
+            out.append(o)
+    return out
+
+
+def push_sites(prog: Program, raw: FuncInfo) -> tuple[Any, list[tuple[Any, int, ast.Call]]]:
+    """(flow of build(), every `<builder>.push_metric(...)` call build() can execute): in its own body (simple helpers and
+    closures spliced in) or in a private helper of the class / module it calls, directly or through other helpers -- each
+    with the flow it sits in, whose parameters are bound to the caller's arguments (defaults included), so `origin()`
+    of anything handed to push_metric leads back into build()."""
+    from ._c06_util import spliced as _spliced
+
+    from ..engine.normalize import _bind
+
+    root = Flow(prog, _spliced(prog, raw))
+    out: list[tuple[Any, int, ast.Call]] = []
+    seen: set[int] = set()
+
+    def visit(fl: Any, trail: tuple[int, ...]) -> None:
+        nested = {n.name: n for n in ast.walk(fl.fn.node) if isinstance(n, (ast.FunctionDef, ast.AsyncFunctionDef)) and n is not fl.fn.node}
+        for nid, c in fl.calls(lambda c: True):
+            if isinstance(c.func, ast.Attribute) and c.func.attr == "push_metric":
+                if id(c) not in seen:
+                    seen.add(id(c))
+                    out.append((fl, nid, c))
+                continue
+            ch = fl.child(c, nid)
+            if ch is None and isinstance(c.func, ast.Name) and c.func.id in nested and fl.depth < 4:
+                # a closure of this function: its parameters are bound to the call's arguments, its free variables
+                # are the enclosing function's variables *at the call* (see origin_x)
+                b = _bind(nested[c.func.id], c)
+                if b is not None:
+                    ch = Flow(prog, FuncInfo(c.func.id, fl.fn.module, nested[c.func.id], None, fl.fn),
+                              {k: (fl, nid, v) for k, v in b.items()}, fl.depth + 1)
+                    CLOSURE_OF[id(ch)] = (ch, fl, nid)
+            if ch is not None and id(ch.fn.node) not in trail:
+                visit(ch, trail + (id(ch.fn.node),))
+
+    visit(root, (id(raw.node),))
+    return root, out
 
 
 def engine_drops_round(run: Run, prog: Program, rule: str | None = "C13.OUT") -> bool:
@@ -848,6 +1011,12 @@ def build_controls(prog: Program) -> list[tuple[str, str, str, str, str]]:
     for c in calls_in(mf, lambda c: isinstance(c.func, ast.Attribute) and c.func.attr == "isinf" and not c.args)[:1]:
         txt = seg(mf.module, c)
         add("inf treated as valid in MetricFetcher.apply", STEPS, stmt_patch(mf, c, lambda t: t.replace(txt, "False", 1)), "C13.FETCH")
+    # MetricFetcher.apply: the zero-fill made to depend on fetcher state outside (value, flag): only without a fallback
+    for x in (x for x in ast.walk(mf.node) if isinstance(x, ast.Attribute) and isinstance(x.ctx, ast.Load) and u(x) == "self._nones_are_zeros"):
+        txt = seg(mf.module, x)
+        add("zero-fill only for streams without a fallback", STEPS, stmt_patch(
+            mf, x, lambda t, txt=txt: t.replace(txt, f"({txt} and self._fallback is None)", 1)), "C13.FETCH")
+        break
     # evaluator: the isinf test of the result is dropped
     ev_mod = prog.module(EVAL)
     ev = prog.cls(f"{EVAL}:FormulaEvaluator")
@@ -869,6 +1038,35 @@ def build_controls(prog: Program) -> list[tuple[str, str, str, str, str]]:
                 add("builder ignores nones_are_zeros", ENGINE, src_patch(
                     b.module, k.value.lineno, k.value.end_lineno or k.value.lineno,
                     lambda t: t.replace(f"nones_are_zeros={txt}", "nones_are_zeros=False", 1)), "C13.OUT")
+    # builder: the pushing moved into a helper whose own nones_are_zeros parameter (default False) build() does not pass
+    for cname in ("HigherOrderFormulaBuilder3Phase", "HigherOrderFormulaBuilder"):
+        b3 = prog.func(f"{ENGINE}:{cname}.build")
+        done3 = False
+        for c in calls_in(b3, lambda c: isinstance(c.func, ast.Attribute) and c.func.attr == "push_metric")[:1]:
+            if not any(k.arg == "nones_are_zeros" for k in c.keywords):
+                continue
+            ctxt, base = seg(b3.module, c), seg(b3.module, c.func.value)
+            rest = [seg(b3.module, a_) for a_ in c.args] + [f"{k.arg}={seg(b3.module, k.value)}" for k in c.keywords if k.arg != "nones_are_zeros"]
+            first = min([b3.node.lineno] + [d.lineno for d in b3.node.decorator_list])
+            ind = " " * b3.node.col_offset
+            pm_ = prog.func(f"{ENGINE}:FormulaBuilder.push_metric")
+            pa = pm_.node.args
+            pos_ = [x.arg for x in pa.posonlyargs + pa.args if x.arg != "self"]
+            kwo_ = [x.arg for x in pa.kwonlyargs]
+            if pa.defaults or pa.vararg or pa.kwarg or "nones_are_zeros" not in kwo_:
+                continue
+            sig = ", ".join(pos_ + ["*"] + [f"{k}=False" if k == "nones_are_zeros" else f"{k}=None" for k in kwo_])
+            fwd = ", ".join(pos_ + [f"{k}={k}" for k in kwo_])
+            helper = (f"{ind}def _ctl_push(self, builder, {sig}):\n"
+                      f"{ind}    builder.push_metric({fwd})\n\n")
+            if ctxt and base and all(rest):
+                add(f"{cname}.build pushes through a helper without handing its flag on", ENGINE, src_patch(
+                    b3.module, first, c.end_lineno or c.lineno,
+                    lambda t, ctxt=ctxt, base=base, rest=rest, helper=helper: helper + t.replace(ctxt, f"self._ctl_push({', '.join([base] + rest)})", 1)
+                    if ctxt in t else t), "C13.OUT")
+                done3 = True
+        if done3:
+            break
     # builder: a "pass-through" shortcut hands the operand's inner stream on
     for c in calls_in(b, lambda c: isinstance(c.func, ast.Attribute) and c.func.attr == "push_metric")[:1]:
         for a_ in list(c.args) + [k.value for k in c.keywords]:
@@ -948,7 +1146,7 @@ def build_controls(prog: Program) -> list[tuple[str, str, str, str, str]]:
                 fn_, a, lambda t, a=a, others=others: f"{' ' * a.col_offset}{a.targets[0].id} = " + " + ".join(f"str({o})" for o in others) + "\n"), "C13.POOL")
             break
     if len(out) < 6:
-        raise AnalysisError(f"C13: only {len(out)} of 14 seeded controls could be derived from the source ({[o[0] for o in out]})")
+        raise AnalysisError(f"C13: only {len(out)} of 18 seeded controls could be derived from the source ({[o[0] for o in out]})")
     return out
 
 
@@ -1030,7 +1228,6 @@ def check_sub(run: Run, prog: Program) -> None:
     receiver, its builder's inputs, a "pass-through" shortcut) bypasses the operand's own MetricFetcher and is
     re-wrapped with the OUTER build's nones_are_zeros."""
     from ..engine.normalize import positional
-    from ._c06_util import spliced as _spliced
 
     pm = prog.func(f"{ENGINE}:FormulaBuilder.push_metric")
     pparams = [p for p in pm.params if p != "self"]
@@ -1039,11 +1236,10 @@ def check_sub(run: Run, prog: Program) -> None:
     for cname in ("HigherOrderFormulaBuilder", "HigherOrderFormulaBuilder3Phase"):
         raw = prog.func(f"{ENGINE}:{cname}.build")
         run.analysed(raw.qual)
-        fl = Flow(prog, _spliced(prog, raw))
-        sites = fl.calls(lambda c: isinstance(c.func, ast.Attribute) and c.func.attr == "push_metric")
+        _root, sites = push_sites(prog, raw)
         if not sites:
             raise AnalysisError(f"{raw.qual}: no push_metric() call found (C13.SUB)")
-        for k, (nid, c) in enumerate(sites):
+        for k, (fl, nid, c) in enumerate(sites):
             arg = positional(c, pparams).get(pparams[1])
             if arg is None:
                 raise AnalysisError(f"{raw.qual}: `{u(c)[:60]}` passes no stream")
